@@ -230,6 +230,11 @@ func (s *Rtmp2MpegtsRemuxer) feedVideo(msg base.RtmpMsg) {
 	var nals [][]byte
 	if codecId == base.RtmpCodecIdHevc && msg.IsEnchanedHevcNalu() {
 		index := msg.GetEnchanedHevcNaluIndex()
+		if len(msg.Payload) <= index {
+			// enhanced-rtmp CodedFrames carry a 3-byte composition time in front of the nalus
+			Log.Warnf("[%s] rtmp msg too short, ignore. header=%+v, payload=%s", s.uk, msg.Header, hex.Dump(msg.Payload))
+			return
+		}
 		nals, err = avc.SplitNaluAvcc(msg.Payload[index:])
 	} else {
 		nals, err = avc.SplitNaluAvcc(msg.Payload[5:])
